@@ -171,3 +171,96 @@ Proof.
   - assert ((n - 1) * slope <= (x - istart) * slope <= 0) by (unfold n; nia).
     destruct Hrow as [-> | ->]; unfold Fx; lia.
 Qed.
+
+(* ---- the mostly-vertical walk is the transposed mostly-horizontal one ------------------------------------------------------ *)
+Definition tr (p : Z * Z * Z) : Z * Z * Z := let '(x, y, a) := p in (y, x, a).
+Definition swapc (c : iclip) : iclip := match c with None => None | Some (l, t, r, b) => Some (t, l, b, r) end.
+
+Lemma tr_tr l : map tr (map tr l) = l.
+Proof. rewrite map_map. rewrite <- (map_id l) at 2. apply map_ext. intros ((x, y), a). reflexivity. Qed.
+
+Lemma in_clip_swap c x y : in_clip (swapc c) y x = in_clip c x y.
+Proof. destruct c as [(((l, t), r), b)|]; [|reflexivity]. cbn. destruct (l <=? x), (x <? r), (t <=? y), (y <? b); reflexivity. Qed.
+
+Lemma px1_swap c x y a : px1 (swapc c) y x a = map tr (px1 c x y a).
+Proof. unfold px1. rewrite in_clip_swap. destruct ((0 <? a) && in_clip c x y); reflexivity. Qed.
+
+Definition trr (r : list (Z * Z * Z) * Z) : list (Z * Z * Z) * Z := (map tr (fst r), snd r).
+
+Lemma slanted_loop_tr fuel : forall c pos f slope acc,
+  slanted_loop fuel Vertish c pos f slope acc = option_map trr (slanted_loop fuel Horish (swapc c) pos f slope (map tr acc)).
+Proof.
+  induction fuel as [|n IH]; intros c pos f slope acc; cbn [slanted_loop].
+  - cbn. unfold trr. cbn [fst snd]. rewrite tr_tr. reflexivity.
+  - destruct (ck (Z.max f 0 + slope)) as [f3|]; [|reflexivity]. cbn [IntRect.bind].
+    rewrite IH. f_equal. f_equal. rewrite !map_app. rewrite <- !px1_swap. reflexivity.
+Qed.
+
+Lemma swapc_invol c : swapc (swapc c) = c.
+Proof. destruct c as [(((l, t), r), b)|]; reflexivity. Qed.
+
+Lemma bind_map_trr (o : option (list (Z * Z * Z) * Z)) : forall (k : list (Z * Z * Z) * Z -> option (list (Z * Z * Z) * Z)) k',
+  (forall r, k (trr r) = option_map trr (k' r)) ->
+  IntRect.bind (option_map trr o) k = option_map trr (IntRect.bind o k').
+Proof. intros k k' H. destruct o as [r|]; cbn; [apply H | reflexivity]. Qed.
+
+Lemma draw_cap_tr c pos f slope m :
+  draw_cap Vertish c pos f slope m = option_map trr (draw_cap Horish (swapc c) pos f slope m).
+Proof.
+  unfold draw_cap. destruct (ck (f + half16)) as [f1|]; [|reflexivity]. cbn [IntRect.bind].
+  destruct (fdot6_small_scale _ m) as [mlo|]; [|reflexivity]. cbn [IntRect.bind].
+  destruct (fdot6_small_scale (255 - _) m) as [mhi|]; [|reflexivity]. cbn [IntRect.bind].
+  destruct (ck (Z.max f1 0 + slope)) as [r0|]; [|reflexivity]. cbn [IntRect.bind].
+  destruct (ck (r0 - half16)) as [r|]; [|reflexivity]. cbn [IntRect.bind option_map]. unfold trr. cbn [fst snd].
+  rewrite map_app, <- !px1_swap, swapc_invol. reflexivity.
+Qed.
+
+Lemma draw_line_tr c pos stop f slope :
+  draw_line Vertish c pos stop f slope = option_map trr (draw_line Horish (swapc c) pos stop f slope).
+Proof.
+  unfold draw_line. destruct (stop <=? pos); [reflexivity|].
+  destruct (ck (f + half16)) as [f1|]; [|reflexivity]. cbn [IntRect.bind].
+  rewrite slanted_loop_tr. cbn [map].
+  destruct (slanted_loop (Z.to_nat (stop - pos)) Horish (swapc c) pos f1 slope []) as [res|]; [|reflexivity]. cbn [option_map IntRect.bind].
+  unfold trr at 1. cbn [snd fst].
+  destruct (ck (snd res - half16)) as [r|]; [|reflexivity]. cbn [IntRect.bind option_map]. reflexivity.
+Qed.
+
+Theorem walk_tr c istart istop fstart slope s0 s1 :
+  walk Vertish c istart istop fstart slope s0 s1 = option_map (map tr) (walk Horish (swapc c) istart istop fstart slope s0 s1).
+Proof.
+  unfold walk. destruct ((istart <? 0) || (istop <? 0)); [reflexivity|].
+  rewrite draw_cap_tr. destruct (draw_cap Horish (swapc c) istart fstart slope s0) as [r1|]; [|reflexivity]. cbn [option_map IntRect.bind].
+  unfold trr at 1 2 3. cbn [fst snd].
+  destruct (istop - (istart + 1) - (if 0 <? s1 then 1 else 0) <? 0); [reflexivity|].
+  assert (E2 : (if 0 <? istop - (istart + 1) - (if 0 <? s1 then 1 else 0)
+                then draw_line Vertish c (istart + 1) (istart + 1 + (istop - (istart + 1) - (if 0 <? s1 then 1 else 0))) (snd r1) slope
+                else Some ([], snd r1)) =
+               option_map trr (if 0 <? istop - (istart + 1) - (if 0 <? s1 then 1 else 0)
+                then draw_line Horish (swapc c) (istart + 1) (istart + 1 + (istop - (istart + 1) - (if 0 <? s1 then 1 else 0))) (snd r1) slope
+                else Some ([], snd r1))).
+  { destruct (0 <? _); [apply draw_line_tr | reflexivity]. }
+  rewrite E2. clear E2.
+  destruct (if 0 <? istop - (istart + 1) - (if 0 <? s1 then 1 else 0) then _ else _) as [r2|]; [|reflexivity]. cbn [option_map IntRect.bind].
+  unfold trr at 1 2. cbn [fst snd].
+  assert (E3 : (if 0 <? s1 then draw_cap Vertish c (istop - 1) (snd r2) slope s1 else Some ([], snd r2)) =
+               option_map trr (if 0 <? s1 then draw_cap Horish (swapc c) (istop - 1) (snd r2) slope s1 else Some ([], snd r2))).
+  { destruct (0 <? s1); [apply draw_cap_tr | reflexivity]. }
+  rewrite E3. clear E3.
+  destruct (if 0 <? s1 then _ else _) as [r3|]; [|reflexivity]. cbn [option_map IntRect.bind]. unfold trr. cbn [fst].
+  rewrite !map_app. reflexivity.
+Qed.
+
+(* the mostly-vertical statements, by transposition *)
+Theorem walk_vertish_inside_clip istart istop fstart slope s0 s1 out cl ct cr cb :
+  walk Vertish None istart istop fstart slope s0 s1 = Some out ->
+  ct <= istart -> istop <= cb -> 0 <= cl ->
+  cl <= y_top fstart slope (istop - istart) -> y_bottom fstart slope (istop - istart) <= cr ->
+  forall x y a, In (x, y, a) out -> cl <= x < cr /\ ct <= y < cb /\ 0 < a.
+Proof.
+  intros H Ht Hb Hl Hlo Hhi x y a Hin. rewrite walk_tr in H. cbn [swapc] in H.
+  destruct (walk Horish None istart istop fstart slope s0 s1) as [o|] eqn:W; [|discriminate]. injection H as H. subst out.
+  apply in_map_iff in Hin. destruct Hin as (((x', y'), a') & E & Hin). cbn in E. inversion E. subst.
+  destruct (walk_horish_inside_clip istart istop fstart slope s0 s1 o ct cl cb cr W Ht Hb Hl Hlo Hhi y x a Hin) as (A & B & C).
+  auto.
+Qed.
